@@ -112,6 +112,7 @@ def run_case(spec):
             if rl:
                 kw['rl'] = rl
             snap = (copy.deepcopy(data), copy.deepcopy(kw))
+            psnap = dict(param)
             res['observations'] += 1
             try:
                 with common.Quiet():
@@ -124,7 +125,7 @@ def run_case(spec):
                 break
             # caller's arguments untouched
             from props.c02 import same
-            if not same(data, snap[0]) or not same(kw, snap[1]):
+            if not same(data, snap[0]) or not same(kw, snap[1]) or param != psnap:
                 common.add_violation(res, "save_data modifies its arguments",
                                      {"kw_before": snap[1], "kw_after": kw})
             # update the model: the entry that belongs to iteration i
@@ -184,8 +185,11 @@ def run_case(spec):
                     common.add_violation(res, f"read_data raises {type(e).__name__}",
                                          {"err": repr(e)[:200], "kw": rsnap})
                     continue
-                if not same(rkw, rsnap):
-                    common.add_violation(res, "read_data modifies its arguments", {})
+                if not same(rkw, rsnap) or param != psnap:
+                    common.add_violation(res, "read_data modifies its arguments",
+                                         {"param_before": psnap, "param_after": dict(param)})
+                    param.clear()
+                    param.update(psnap)
                 uits = sorted(set(rits))
                 rd_cls = ('all-vars' if allv else 'named-vars')
                 if [int(i) for i in out['it']] != uits:
